@@ -471,7 +471,7 @@ theorem apiScope_decos (st : St) (parent : Nat) :
 /-- **creating a child scope and an adjacent Decorate can be swapped** when the decorator takes positional parameters
     only and decorates an existing scope: the same answer, the same container -/
 theorem scope_decorate_swap (ctx : Ctx) (fD : Fn) (st : St) (parent iD sD : Nat) (cb info : Bool) (hsD : sD < st.scopes.length)
-    (h : ∀ t ∈ (if fD.variadic then fD.ins.dropLast else fD.ins), ∃ i, t = GoT.univ i) :
+    (r : Except DErr (List Param)) (hD : ∀ x, parseParams ctx.env x sD fD = (r, x)) :
     (apiDecorate ctx fD (apiScope st parent) iD sD cb info).1 = apiScope (apiDecorate ctx fD st iD sD cb info).1 parent ∧
     (apiDecorate ctx fD (apiScope st parent) iD sD cb info).2 = (apiDecorate ctx fD st iD sD cb info).2 := by
   cases hnf : fD.nonfunc with
@@ -482,9 +482,9 @@ theorem scope_decorate_swap (ctx : Ctx) (fD : Fn) (st : St) (parent iD sD : Nat)
     exact ⟨rfl, rfl⟩
   | none =>
     obtain ⟨hdecos, htbl⟩ := apiScope_decos st parent
-    rw [apiDecorate_decide ctx fD _ iD sD cb info hnf _ (parseParams_plain ctx.env fD h _ sD),
-      apiDecorate_decide ctx fD st iD sD cb info hnf _ (parseParams_plain ctx.env fD h _ sD), htbl sD, hdecos]
-    cases decoDecide ctx fD iD sD cb info _ (st.scope sD).decorators with
+    rw [apiDecorate_decide ctx fD _ iD sD cb info hnf r (hD _),
+      apiDecorate_decide ctx fD st iD sD cb info hnf r (hD _), htbl sD, hdecos]
+    cases decoDecide ctx fD iD sD cb info r (st.scope sD).decorators with
     | error e => exact ⟨rfl, rfl⟩
     | ok x =>
       obtain ⟨node, keys, res⟩ := x
@@ -503,5 +503,130 @@ theorem scope_decorate_swap (ctx : Ctx) (fD : Fn) (st : St) (parent iD sD : Nat)
         split
         · rename_i hs; omega
         · rw [hd]
+
+end Dig
+
+/-! ### functions without value-group parameters -/
+
+namespace Dig
+
+mutual
+/-- no field, at any depth, carries a `group` tag -/
+def noGroupT : GoT → Bool
+  | .univ _ => true
+  | .ptr _ _ => true
+  | .strct _ fs => noGroupFs fs
+def noGroupFs : List (FieldMeta × GoT) → Bool
+  | [] => true
+  | (m, t) :: rest => m.tags.group == "" && noGroupT t && noGroupFs rest
+end
+
+mutual
+theorem newParam_noGroup (env : TyEnv) : ∀ (t : GoT), noGroupT t = true → ∀ s, newParam env t s = ((newParam env t []).1, s)
+  | .univ i, _, s => newParam_univ env i s
+  | .ptr i inner, _, s => by
+    unfold newParam
+    simp only
+    repeat (first | split | rfl)
+  | .strct i fs, h, s => by
+    have hfs : noGroupFs fs = true := by simpa [noGroupT] using h
+    unfold newParam
+    simp only
+    split
+    · rfl
+    · split
+      · cases boolTag (if hasInField fs then findIgnoreTag fs else "") with
+        | error e => rfl
+        | ok ignore =>
+          simp only
+          rw [newParamFields_noGroup env ignore fs hfs s, newParamFields_noGroup env ignore fs hfs []]
+          cases (newParamFields env ignore fs []).1 <;> rfl
+      · split <;> rfl
+theorem newParamFields_noGroup (env : TyEnv) (ignore : Bool) : ∀ (fs : List (FieldMeta × GoT)), noGroupFs fs = true →
+    ∀ s, newParamFields env ignore fs s = ((newParamFields env ignore fs []).1, s)
+  | [], _, s => rfl
+  | (m, t) :: rest, h, s => by
+    have h' : m.tags.group = "" ∧ noGroupT t = true ∧ noGroupFs rest = true := by
+      simpa [noGroupFs, Bool.and_eq_true, beq_iff_eq, and_assoc] using h
+    have ihr := newParamFields_noGroup env ignore rest h'.2.2
+    unfold newParamFields
+    simp only
+    split
+    · rw [ihr s, ihr []]
+    · split
+      · rw [ihr s, ihr []]
+      · rw [newParamField_noGroup env m t h'.1 h'.2.1 s, newParamField_noGroup env m t h'.1 h'.2.1 []]
+        cases (newParamField env (m, t) []).1 with
+        | error e => rfl
+        | ok p =>
+          simp only
+          rw [ihr s, ihr []]
+          cases (newParamFields env ignore rest []).1 <;> rfl
+theorem newParamField_noGroup (env : TyEnv) (m : FieldMeta) (t : GoT) (hg : m.tags.group = "") (ht : noGroupT t = true) :
+    ∀ s, newParamField env (m, t) s = ((newParamField env (m, t) []).1, s) := by
+  intro s
+  unfold newParamField
+  simp only [hg, bne_self_eq_false, Bool.false_eq_true, if_false]
+  split
+  · rfl
+  · rw [newParam_noGroup env t ht s, newParam_noGroup env t ht []]
+    cases (newParam env t []).1 with
+    | error e => rfl
+    | ok p =>
+      cases p with
+      | single k o => simp only; cases boolTag m.tags.optional <;> rfl
+      | grouped a b c d => rfl
+      | object a b => rfl
+end
+end Dig
+
+namespace Dig
+
+theorem newParamListAux_noGroup (env : TyEnv) : ∀ (ts : List GoT), (∀ t ∈ ts, noGroupT t = true) → ∀ s,
+    newParamListAux env ts s = ((newParamListAux env ts []).1, s)
+  | [], _, s => rfl
+  | t :: rest, h, s => by
+    have ht := h t (by simp)
+    have ih := newParamListAux_noGroup env rest (fun t ht => h t (by simp [ht]))
+    simp only [newParamListAux]
+    rw [newParam_noGroup env t ht s, newParam_noGroup env t ht []]
+    cases (newParam env t []).1 with
+    | error e => rfl
+    | ok p =>
+      simp only
+      rw [ih s, ih []]
+      cases (newParamListAux env rest []).1 <;> rfl
+
+/-- a function without value-group parameters (at any depth of parameter objects): its parse leaves every container as
+    it is, and gives the same parameter list whatever the container -/
+theorem parseParams_noGroup (env : TyEnv) (fn : Fn)
+    (h : ∀ t ∈ (if fn.variadic then fn.ins.dropLast else fn.ins), noGroupT t = true) (x : St) (s : Nat) :
+    parseParams env x s fn = ((newParamListAux env (if fn.variadic then fn.ins.dropLast else fn.ins) []).1, x) := by
+  unfold parseParams newParamList
+  have e := newParamListAux_noGroup env _ h (x.pgs.map (·.desc))
+  simp only [e]
+  unfold addPGNodes
+  simp
+  have : List.drop x.pgs.length (List.map ((fun d => ({ desc := d } : PGNode)) ∘ fun x => x.desc) x.pgs) = [] := by
+    apply List.drop_eq_nil_of_le; simp
+  rw [this, List.append_nil]
+
+theorem provide_decorate_swap_noGroup (ctx : Ctx) (fP fD : Fn) (st : St) (iP iD sP sD : Nat) (o : ProvideOpts) (cb info : Bool)
+    (h : ∀ t ∈ (if fD.variadic then fD.ins.dropLast else fD.ins), noGroupT t = true) :
+    (apiDecorate ctx fD (apiProvide ctx fP st iP sP o).1 iD sD cb info).1 =
+      (apiProvide ctx fP (apiDecorate ctx fD st iD sD cb info).1 iP sP o).1 ∧
+    (apiProvide ctx fP st iP sP o).2 = (apiProvide ctx fP (apiDecorate ctx fD st iD sD cb info).1 iP sP o).2 ∧
+    (apiDecorate ctx fD (apiProvide ctx fP st iP sP o).1 iD sD cb info).2 = (apiDecorate ctx fD st iD sD cb info).2 :=
+  provide_decorate_swap ctx fP fD st iP iD sP sD o cb info _ (fun x => parseParams_noGroup ctx.env fD h x sD)
+
+end Dig
+
+namespace Dig
+
+theorem scope_decorate_swap_noGroup (ctx : Ctx) (fD : Fn) (st : St) (parent iD sD : Nat) (cb info : Bool)
+    (hsD : sD < st.scopes.length) (h : ∀ t ∈ (if fD.variadic then fD.ins.dropLast else fD.ins), noGroupT t = true) :
+    (apiDecorate ctx fD (apiScope st parent) iD sD cb info).1 = apiScope (apiDecorate ctx fD st iD sD cb info).1 parent ∧
+    (apiDecorate ctx fD (apiScope st parent) iD sD cb info).2 = (apiDecorate ctx fD st iD sD cb info).2 :=
+  scope_decorate_swap ctx fD st parent iD sD cb info hsD _ (fun x => parseParams_noGroup ctx.env fD h x sD)
 
 end Dig
